@@ -200,6 +200,12 @@ func partAConfigs(tier string) []bfsRun {
 			Sources: ab, Queue: 1, FetchAns: []string{"blk", "err"}, SyncAns: []string{"synced", "err"}, Avail: true, GetAns: allGet}, 14},
 		{bCfg{Name: "archival-avail-and-listener", Archival: true, Blocks: []vBlockSpec{{Height: 1, TC: tcOut, Content: cBlob}, {Height: 2, TC: tcOut, Content: cEmpty}, {Height: 3, TC: tcIn, Content: cTxBlob}},
 			Sources: []string{"A"}, FetchAns: []string{"blk", "err"}, SyncAns: []string{"syncing", "err"}, Avail: true, GetAns: []string{"eds", "notfound", "canceled", "byzdeadline"}, Faults: []string{"link", "q4-write"}}, 14},
+		{bCfg{Name: "pruned-parked-put-race", Blocks: []vBlockSpec{{Height: 1, TC: tcIn, Content: cBlob}, {Height: 2, TC: tcIn, Content: cEmpty}},
+			Sources: ab, Queue: 1, FetchAns: []string{"blk", "err"}, SyncAns: []string{"synced", "err"}, Avail: true, GetAns: []string{"eds", "notfound"},
+			Pauses: []string{"ods-create", "link", "symlink"}}, 16},
+		{bCfg{Name: "archival-parked-put-race", Archival: true, Blocks: []vBlockSpec{{Height: 1, TC: tcOut, Content: cBlob}, {Height: 2, TC: tcIn, Content: cTx}},
+			Sources: []string{"A"}, FetchAns: []string{"blk"}, SyncAns: []string{"synced", "err"}, Avail: true, GetAns: []string{"eds", "notfound"},
+			Pauses: []string{"ods-write", "link"}}, 16},
 		{bCfg{Name: "pruned-restart", Blocks: []vBlockSpec{{Height: 1, TC: tcIn, Content: cBlob}, {Height: 2, TC: tcIn, Content: cEmpty}, {Height: 3, TC: tcIn, Content: cBlob, Unbuildable: true}},
 			Sources: ab, Queue: 1, FetchAns: []string{"blk", "err"}, SyncAns: []string{"synced", "err"}, Stop: true}, 14},
 		{bCfg{Name: "pruned-window-edge", Blocks: []vBlockSpec{{Height: 1, TC: tcEdge, Content: cBlob}, {Height: 2, TC: tcIn, Content: cTx}},
@@ -225,6 +231,12 @@ func partAConfigs(tier string) []bfsRun {
 			Sources: abc, Queue: 1, FetchAns: []string{"blk", "err"}, SyncAns: []string{"synced", "syncing", "err"}}, 18},
 		{bCfg{Name: "T-archival-3src-q2-avail", Archival: true, Blocks: []vBlockSpec{{Height: 1, TC: tcOut, Content: cBlob}, {Height: 2, TC: tcIn, Content: cEmpty}, {Height: 3, TC: tcOut, Content: cTx}},
 			Sources: abc, Queue: 2, FetchAns: []string{"blk", "err"}, SyncAns: []string{"synced", "err"}, Avail: true, GetAns: []string{"eds", "deadline"}}, 18},
+		{bCfg{Name: "T-pruned-parked-put-race", Blocks: []vBlockSpec{{Height: 1, TC: tcIn, Content: cTxBlob}, {Height: 2, TC: tcIn, Content: cEmpty}, {Height: 3, TC: tcOut, Content: cBlob}},
+			Sources: ab, Queue: 1, FetchAns: []string{"blk", "err"}, SyncAns: []string{"synced", "syncing", "err"}, Avail: true, GetAns: []string{"eds", "notfound", "canceled"},
+			Pauses: allFaults, Faults: []string{"link"}}, 18},
+		{bCfg{Name: "T-archival-parked-put-race", Archival: true, Blocks: []vBlockSpec{{Height: 1, TC: tcOut, Content: cBlob}, {Height: 2, TC: tcOut, Content: cEmpty}, {Height: 3, TC: tcIn, Content: cTx}},
+			Sources: ab, Queue: 1, FetchAns: []string{"blk", "err"}, SyncAns: []string{"synced", "err"}, Avail: true, GetAns: []string{"eds", "notfound"},
+			Pauses: allFaults}, 18},
 		{bCfg{Name: "T-archival-window-edge", Archival: true, Blocks: []vBlockSpec{{Height: 1, TC: tcEdge, Content: cBlob}, {Height: 2, TC: tcOut, Content: cTx}},
 			Sources: ab, Queue: 1, FetchAns: []string{"blk", "timeout"}, SyncAns: []string{"synced", "slow", "err"}, Avail: true, GetAns: []string{"eds", "notfound"}, Stop: true}, 18},
 	}
@@ -311,7 +323,7 @@ func partCScripts(tier string) (scripts []bScript, layouts int) {
 		for _, arch := range []bool{false, true} {
 			for _, tc := range []string{tcIn, tcOut} {
 				cfg := bCfg{Name: "C-avail", Archival: arch, Blocks: []vBlockSpec{{Height: 1, TC: tc, Layout: name}},
-					Sources: []string{"A"}, Avail: true, GetAns: allGet, Faults: allFaults}
+					Sources: []string{"A"}, Avail: true, GetAns: allGet, Faults: allFaults, Pauses: allFaults}
 				add := func(steps ...string) { scripts = append(scripts, bScript{cfg, steps}) }
 				if reps[name] {
 					for _, a1 := range allGet {
@@ -326,6 +338,14 @@ func partCScripts(tier string) (scripts []bScript, layouts int) {
 				}
 				for _, f := range allFaults {
 					add("fault:"+f, "avail:1", "get:eds?", "avail:1", "get:eds?")
+				}
+				if reps[name] {
+					// the put parked at every effect, then released either way
+					for _, f := range allFaults {
+						for _, r := range []string{"ok", "fail"} {
+							add("fault:pause-"+f, "avail:1", "get:eds?", "resume:"+r+"?", "avail:1", "get:eds?")
+						}
+					}
 				}
 			}
 		}
